@@ -199,6 +199,42 @@ func checkC13Reconn(ix *index, add addFn) {
 			}
 		}
 	}
+	// a half-dead link: the keep-alive's own PINGREQ cannot be written and the
+	// read side says nothing. No application Ping in the scenario, so a PINGREQ
+	// is the keep-alive's.
+	appPing := false
+	for _, op := range ix.sc.Ops {
+		if op.Kind == "ping" {
+			appPing = true
+		}
+	}
+	if !appPing && ix.complete && ix.discAt < 0 {
+		for i := range ix.tr {
+			if i >= ix.end() {
+				break
+			}
+			r := &ix.tr[i]
+			if r.Kind != "txfail" || r.P == nil || r.P.Type != TPingReq {
+				continue
+			}
+			half := false
+			for _, f := range ix.sc.Faults {
+				if f.Kind == "writeErr" && f.Conn == r.Conn && f.Code == 2 {
+					half = true
+				}
+			}
+			c := conns[r.Conn]
+			if !half || c == nil || !c.accepted {
+				continue
+			}
+			if c.endAt < 0 {
+				add("closes-silent", fmt.Sprintf("conn %d: the keep-alive's PINGREQ could not be written (half-dead link, read side silent) and the client never closed the connection", r.Conn), map[string]string{"kind": "half-dead"})
+			} else if conns[r.Conn+1] == nil {
+				add("closes-silent", fmt.Sprintf("conn %d was closed after the keep-alive's PINGREQ could not be written but no new dial followed", r.Conn), map[string]string{"kind": "half-dead"})
+			}
+			break
+		}
+	}
 	for k, c := range conns {
 		p := get(k)
 		if !c.accepted || c.activeAt < 0 {
